@@ -61,6 +61,8 @@ type record struct {
 	Route         int
 	HadPre        bool
 	HadPost       bool
+	Inner         *record // the request this one's handler forwarded through the same Mux, if any
+	InnerEscaped  any
 }
 
 type ctxKey struct{}
@@ -103,6 +105,17 @@ func (t *table) handler(idx int) httpd.HandlerFunc {
 		rec := s.R.Context().Value(ctxKey{}).(*record)
 		rec.Calls++
 		rec.Route = idx
+		if fp := s.R.Header.Get("X-Forward-Path"); fp != "" {
+			// forward another request through the same Mux, handing it this Store's ResponseWriter, before looking at
+			// this request's own Store
+			rec.Inner = &record{Route: -2}
+			req2 := &http.Request{Method: s.R.Header.Get("X-Forward-Method"), URL: &url.URL{Path: fp}, Header: http.Header{}, RequestURI: fp, RemoteAddr: "192.0.2.1:1234"}
+			req2 = req2.WithContext(context.WithValue(context.Background(), ctxKey{}, rec.Inner))
+			func() {
+				defer func() { rec.InnerEscaped = recover() }()
+				t.mux.ServeHTTP(s.W, req2)
+			}()
+		}
 		rec.In = takeSnap(t, s)
 		if s.R.Header.Get("X-Panic") != "" {
 			panic(panicMarker{idx})
@@ -184,10 +197,14 @@ type request struct {
 	method, path string
 	panics       bool
 	writes       bool
+	forward      *request // the handler forwards this request through the same Mux first (Store.W as the writer)
 }
 
 func (rq request) String() string {
 	s := fmt.Sprintf("%s %q", rq.method, rq.path)
+	if rq.forward != nil {
+		s += fmt.Sprintf(" [handler forwards %s %q through the Mux]", rq.forward.method, rq.forward.path)
+	}
 	if rq.panics {
 		s += " [handler panics]"
 	}
@@ -205,6 +222,10 @@ func (t *table) serve(rq request) (rec *record, escaped any) {
 	}
 	if rq.writes {
 		req.Header.Set("X-Status", "1")
+	}
+	if rq.forward != nil {
+		req.Header.Set("X-Forward-Method", rq.forward.method)
+		req.Header.Set("X-Forward-Path", rq.forward.path)
 	}
 	req = req.WithContext(context.WithValue(context.Background(), ctxKey{}, rec))
 	func() {
@@ -230,6 +251,15 @@ func (t *table) model(rq request) (route int, key string) {
 
 // judge compares the record of a request on the long-lived Mux with a fresh Mux and the model.
 func (t *table) judge(rq request, rec *record, escaped any) string {
+	if rq.forward != nil && rec.Inner != nil {
+		if m := t.judgeOne(*rq.forward, rec.Inner, rec.InnerEscaped, false); m != "" {
+			return "forwarded request " + rq.forward.String() + ": " + m
+		}
+	}
+	return t.judgeOne(rq, rec, escaped, true)
+}
+
+func (t *table) judgeOne(rq request, rec *record, escaped any, compareFresh bool) string {
 	if _, own := escaped.(panicMarker); own && t.relayMode == 2 && rq.panics {
 		// the relay of this table does not contain handler panics: the escape is the harness' own doing.
 		// What matters is that later requests are unaffected; this request is judged up to the handler.
@@ -274,6 +304,9 @@ func (t *table) judge(rq request, rec *record, escaped any) string {
 				return fmt.Sprintf("%s observed %s\n  reference router: %s", name, strip(sn), wantKey)
 			}
 		}
+	}
+	if !compareFresh {
+		return ""
 	}
 	// (i) the same request on a fresh Mux carrying the current table
 	fresh := t.clone()
@@ -381,6 +414,10 @@ func runMachine(t *rapid.T, concurrent bool) {
 			path:   genPathFor(tb.routes).Draw(t, "path"),
 			panics: panics,
 			writes: !panics && rapid.IntRange(0, 3).Draw(t, "writes") == 0,
+		}
+		if rapid.IntRange(0, 5).Draw(t, "forwards") == 0 {
+			rq.forward = &request{method: rapid.SampledFrom([]string{"GET", "POST"}).Draw(t, "fwdMethod"), path: genPathFor(tb.routes).Draw(t, "fwdPath")}
+			ev.Label("request:handler_forwards_another_request_through_the_Mux")
 		}
 		hist = append(hist, "request "+rq.String())
 		rec, esc := tb.serve(rq)
